@@ -29,6 +29,8 @@ def build_items(tier):
         for sig, body in tm.expr_functions(3, False):
             if sig.count("(") >= 3:
                 fn("expr:" + sig, body)
+    for sig, body in tm.flat_chains():
+        fn("expr:" + sig, body)
     for sig, body in tm.stmt_functions(1, True):
         fn("stmt:" + sig, body)
     for sig, body in tm.stmt_functions(2, quick is False):
@@ -104,6 +106,8 @@ def _corpus_work(task):
     if r is None:
         return 1, []
     if r[0] in ("model-invalid", "pycparser-reject"):
+        if name.startswith("pragma-tu:"):
+            return 1, [(f"{r[0]}:{name}", {"text": text, "opts": opts}, r[1])]
         return 0, []  # gcc does not accept this corpus file as is (fake headers): not in the property's domain
     return 1, [(f"corpus:{r[0]}:{name}", {"text": text, "opts": opts}, r[1])]
 
@@ -137,6 +141,8 @@ def run(tier):
         else:
             R.fail(f"{kind}:{attr[idx]}", {"text": text, "opts": opts, "shape": items[idx][0]}, det)
     ctasks = [(nm, t, opts) for nm, t in corpus.corpus(tier)]
+    # translation units with directives: compared as they are, one by one
+    ctasks += [("pragma-tu:" + nm, t, opts) for nm, t in tm.PRAGMA_TUS]
     cn = 0
     for c, fl in core.pmap(_corpus_work, ctasks, chunksize=1):
         cn += c
